@@ -128,8 +128,8 @@ async def run_case(acc, clock, slots, prior, req, state, cid, concur=None, step_
         mid = max(1, (last + 1) // 2)
         bspec, espec = req
         malformed = bspec in ("missing", "abc", "empty") or espec in ("missing", "abc", "empty")
-        begin = {"1": 1, "mid": mid, "last": last, "last+1": last + 1, "last+10": last + 10, "0": 0, "-3": -3, "missing": 1, "abc": 1, "empty": 1}[bspec]
-        end = {"0": 0, "b-1": begin - 1, "b": begin, "mid": mid, "last": last, "last+5": last + 5, "missing": 0, "abc": 0, "empty": 0}[espec]
+        begin = {"1": 1, "mid": mid, "last": last, "last+1": last + 1, "last+10": last + 10, "0": 0, "-3": -3, "missing": 1, "abc": 1, "empty": 1, "huge": 10 ** 19 + 7}[bspec]
+        end = {"0": 0, "b-1": begin - 1, "b": begin, "mid": mid, "last": last, "last+5": last + 5, "missing": 0, "abc": 0, "empty": 0, "huge": 10 ** 19 + 9}[espec]
         w.update({"begin": begin, "end": end, "last": last, "journal_before": {k: fixwire.show(v)[:120] for k, v in before.items()}})
         if step_back:
             # the wall clock is set back (NTP step, fail-over to a host whose clock is behind) between the originals and the request:
@@ -212,6 +212,8 @@ async def run_case(acc, clock, slots, prior, req, state, cid, concur=None, step_
         if any(fixwire.get(parsed_before[q], 33) is not None and fixwire.get(parsed_before[q], 35) == "B" for q in inrange) and \
                 any("RepeatingTagError" in x for x in w["swallowed"]):
             feats.insert(0, "unlisted-group-in-range")
+        if "huge" in (bspec, espec) and any("OverflowError" in x for x in w["swallowed"]):
+            feats.insert(0, "number-beyond-int64")
         feat = feats[0] if feats else "plain"
         if "possdup-copy-in-range" in feats and any("DuplicatedTagError" in x for x in w["swallowed"]):
             feat = "possdup-copy-in-range"
@@ -320,8 +322,9 @@ async def run_case(acc, clock, slots, prior, req, state, cid, concur=None, step_
         E.stop_tasks(ep)
 
 
-BEGINS = ["1", "mid", "last", "last+1", "last+10", "0", "-3", "missing", "abc", "empty"]
-ENDS = ["0", "b-1", "b", "mid", "last", "last+5", "missing", "abc"]
+# ("huge": a number beyond 2^63 - some engines write "infinity" that way; as EndSeqNo it means "up to the last one" like any number above it)
+BEGINS = ["1", "mid", "last", "last+1", "last+10", "0", "-3", "missing", "abc", "empty", "huge"]
+ENDS = ["0", "b-1", "b", "mid", "last", "last+5", "missing", "abc", "huge"]
 
 
 def run_shard(spec, acc):
